@@ -15,6 +15,11 @@
      ok_part reqs os     = payloads of the requests that were answered,  failed_part: of those that failed
      answers reqs os     = all responses received, in request order
      honest reqs os      = every broker that answers, answers for exactly the partitions it was asked (any order)
+   The statements are GENERIC over the request kind: a payload is (topic, partition, tag), the encoder/decoder are
+   parameters of the code and do not occur in the model; send_produce/fetch/offset/offset_fetch/offset_commit_request
+   are all [send_public] = (API-version lookup, not modelled: the client is driven with discovery off) +
+   [aware] + _handle_responses, so C07_routing / C07_order / C07_accounting apply to send_fetch_request as they
+   stand (its wrapper is tied by the same correspondence and monitors: the driver issues real Fetch v0 requests).
    Duplicate (topic, partition) payloads in one call are outside the order/accounting statements (hypothesis
    NoDup (map p_key ps)): the response dictionary keeps one answer per key (client.py:1357). *)
 From AV Require Import Base.Util Model.ClientMeta Model.ClientRoute Proofs.ClientMetaDict Proofs.ClientMetaFacts
